@@ -208,7 +208,7 @@ def atomic_sites(body: str):
     return sites
 
 
-_CALL_PAT = re.compile(r'(?<![\w.>:])([A-Za-z_]\w*)\s*\(')
+_CALL_PAT = re.compile(r'(?<![\w:])([A-Za-z_]\w*)\s*\(')   # free calls and member calls (`x.Helper(...)`, `p->Helper(...)`)
 _NOT_HELPERS = {'if', 'while', 'for', 'switch', 'return', 'sizeof', 'static_cast', 'reinterpret_cast', 'const_cast',
                 'dynamic_cast', 'decltype', 'alignof', 'noexcept', 'catch', 'assert', 'defined', 'SpinWithBackoff'}
 
